@@ -458,10 +458,29 @@ def run(tier="quick"):
         I_ = Lin.sym("v%d" % h.params[idx_j]["d"])
         av_d = h.params[argv_j]["d"]
         hits = []
+        # locals that hold the address of a slot (rest = &argv[i]): rest[k] is argv[i + k]
+        slot_alias = {}
+        for y in walk(h.body):
+            rhs_, d_ = None, None
+            if y.get("k") == "assign" and y.get("op") == "=" and X.strip(y["ch"][0]).get("k") == "ref":
+                rhs_, d_ = X.strip(y["ch"][1]), X.strip(y["ch"][0])["d"]
+            if y.get("k") == "decl":
+                for dcl in y.get("decls", ()):
+                    if dcl.get("init") is not None:
+                        r0 = X.strip(dcl["init"])
+                        if r0.get("k") == "un" and r0.get("op") == "&" and X.strip(r0["ch"][0]).get("k") == "index" and \
+                                X.strip(X.strip(r0["ch"][0])["ch"][0]).get("d") == av_d:
+                            slot_alias[dcl["d"]] = X.strip(r0["ch"][0])["ch"][1]
+            if rhs_ is not None and rhs_.get("k") == "un" and rhs_.get("op") == "&" and X.strip(rhs_["ch"][0]).get("k") == "index" and \
+                    X.strip(X.strip(rhs_["ch"][0])["ch"][0]).get("d") == av_d:
+                slot_alias[d_] = X.strip(rhs_["ch"][0])["ch"][1]
 
         def vr(st, x, blk):
-            if x.get("k") == "index" and X.strip(x["ch"][0]).get("d") == av_d:
+            base_d = X.strip(x["ch"][0]).get("d") if x.get("k") == "index" else None
+            if x.get("k") == "index" and (base_d == av_d or base_d in slot_alias):
                 par = h.parent.get(x["i"])
+                if par is not None and par.get("k") == "un" and par.get("op") == "&":
+                    return          # &argv[E]: the address of the slot, not its contents
                 while par is not None and par.get("k") in ("paren", "icast", "cast"):
                     nxt_ = h.parent.get(par["i"])
                     if par.get("k") in ("icast", "cast") and par.get("ck") != "LValueToRValue" and nxt_ is not None and nxt_.get("k") == "assign" and nxt_["ch"][0] is par:
@@ -470,6 +489,11 @@ def run(tier="quick"):
                 if par is not None and par.get("k") == "assign" and X.strip(par["ch"][0]) is x:
                     return          # a store into the slot, not a read
                 e = gh.lin(x["ch"][1])
+                if e is not None and base_d in slot_alias:
+                    e0 = gh.lin(slot_alias[base_d])
+                    e = (e0 + e) if e0 is not None else None
+                    if e is None:
+                        return      # the slot the alias points at is not a linear expression: not decided
                 if e is not None and gh.compatible(st, [e - I_, I_ - e]):
                     hits.append(x)
         gh.visit(vr)
